@@ -323,7 +323,7 @@ def check_gather(ctx, n):
     exprs, meta = [], []
     for _ in range(n):
         stmt = r.choice(stmts)
-        cuts = sorted(r.sample(range(1, len(stmt)), r.choice([0, 1, 2, 3])))
+        cuts = sorted(r.sample(range(1, len(stmt)), r.choice([0, 1, 2, 3, 4])))
         bodies = [stmt[a:b] for a, b in zip([0] + cuts, cuts + [len(stmt)])]
         lines = [" " * r.choice([6, 7, 9]) + bodies[0] + r.choice(tails)]
         for b in bodies[1:]:
@@ -341,7 +341,9 @@ def check_gather(ctx, n):
         if got.split("!")[0].replace(" ", "") != stmt.replace(" ", ""):
             ctx.report("C14:continuation", "a fixed-form statement split over continuation lines is not reassembled",
                        {"kind": "counterexample", "input": {"lines": lines, "statement": stmt}, "implementation": got})
-        exprs.append("str_eqb (joined_fixed %s %s) %s" % (cstr(lines[0]), clist(lines[1:], cstr), cstr(got)))
+        # line by line (the empty entries kept for skipped lines decide where the parser goes on reading), and joined
+        exprs.append("list_eqb str_eqb (fgather %s [%s] []) %s && str_eqb (joined_fixed %s %s) %s" % (
+            clist(lines[1:], cstr), cstr(lines[0]), clist([cur] + post, cstr), cstr(lines[0]), clist(lines[1:], cstr), cstr(got)))
         meta.append({"lines": lines, "implementation": got})
     bad = coq.bools(exprs, shard=300)
     ctx.cov["traces_validated_against_impl"] += len(exprs)
